@@ -69,10 +69,11 @@ class Armorable(metaclass=abc.ABCMeta):
                          # if this doesn't match, m['headers'] will be None
                          (?P<headers>(^.+:\ .*(?:\r?\n))+)?(?:[ \t]*\r?\n)?
                          # capture all lines of the body, up to 76 characters long,
-                         # including the newline, and the pad character(s)
-                         (?P<body>([A-Za-z0-9+/]{1,76}={,2}(?:\r?\n))+)
+                         # including the newline, and the pad character(s); white space at the end of a line is not
+                         # part of the radix-64 data and not a sign of damage either (RFC 4880 6.4, RFC 2045 6.8)
+                         (?P<body>([A-Za-z0-9+/]{1,76}={,2}[ \t]*(?:\r?\n))+)
                          # capture the armored CRC24 value; the checksum line is optional (RFC 4880 6.1: "MAY appear")
-                         (?:^=(?P<crc>[A-Za-z0-9+/]{4})(?:\r?\n))?
+                         (?:^=(?P<crc>[A-Za-z0-9+/]{4})[ \t]*(?:\r?\n))?
                          # finally, capture the armor tail line, which must match the armor header line
                          ^-{5}END\ PGP\ (?P=magic)-{5}[ \t]*(?:\r?\n)?
                          """, flags=re.MULTILINE | re.VERBOSE)
@@ -225,7 +226,7 @@ class Armorable(metaclass=abc.ABCMeta):
 
         if m['body'] is not None:
             try:
-                nchars = len(re.sub(r'[\r\n]', '', m['body']))
+                nchars = len(re.sub(r'[\r\n \t]', '', m['body']))
                 m['body'] = bytearray(base64.b64decode(m['body'].encode()))
 
             except (binascii.Error, TypeError) as ex:
